@@ -1,11 +1,11 @@
-SPECIFICATION Spec
+SPECIFICATION GenSpec
 CONSTANTS
   NPages = 2
-  Readers = {r1, r2}
+  Readers = {1, 2}
   MaxWrites = 3
   MaxCkpt = 3
   MaxReaderStarts = 2
-  ReaderPoints = {"idle", "sqlite"}
+  ReaderPoints = {"idle"}
   CanonicalPages = TRUE
   DisarmOnTruncate = TRUE
   ArmOnAllMoved = TRUE
@@ -13,5 +13,5 @@ CONSTANTS
   ResetBySalt = TRUE
   CancelOnError = TRUE
   BusyKeepsState = TRUE
-SYMMETRY ReaderSym
-INVARIANTS RebuildOK NoSegmentAfterFailure ResetDetected NoSpuriousReset NoRecapture
+VIEW GenView
+INVARIANTS WRebuildOK WNoSegmentAfterFailure WResetDetected WNoSpuriousReset WNoRecapture
